@@ -129,6 +129,8 @@ func (x *Exec) pass() {
 	x.backEdgeCount = map[*ssa.BasicBlock]int{}
 	x.psums = nil
 	x.psumUnfolded = nil
+	x.aliases = nil
+	x.skipRecouple = false
 	x.X.decls = nil
 	x.X.declSeen = map[string]bool{}
 	x.X.structSorts = map[string]*structSort{}
@@ -258,6 +260,7 @@ func (x *Exec) pass() {
 				for _, r := range in.Results {
 					vs = append(vs, x.val(r))
 				}
+				x.returnAssertions(bst, in, vs)
 				rets = append(rets, retInfo{cond: bst.live, st: bst, vals: vs})
 			case *ssa.Panic:
 				// reaching an explicit panic is a safety violation unless the contract allows it
@@ -368,7 +371,10 @@ func (x *Exec) loopHead(li *loopInfo, st *State, variants map[*ssa.BasicBlock]Te
 	}
 	// ghost call counters and the last random draw may change in any loop that makes calls
 	for _, c := range x.compOrder {
-		if strings.HasPrefix(c, "Ghost_calls_") || strings.HasPrefix(c, "Ghost_last") {
+		if strings.HasPrefix(c, "Ghost_ret_") && !x.loopCallsNamed(li, strings.TrimPrefix(c, "Ghost_ret_")) {
+			continue // no call of that name in the loop (callees inlined in the loop are not searched: see loopCallsNamed)
+		}
+		if strings.HasPrefix(c, "Ghost_calls_") || strings.HasPrefix(c, "Ghost_last") || strings.HasPrefix(c, "Ghost_ret_") {
 			st.heap[c] = x.havocConst(c+"@loop", x.comps[c])
 		}
 	}
